@@ -1,5 +1,6 @@
 import SSV.Model.UdpSession
 import SSV.Proofs.SWFRun
+import SSV.Proofs.SaltPoolTs
 /-
 Lemmas about the UDP unpacker session model (C04): rejected packets are no-ops, the server
 unpacker refines "Fresh w.r.t. the delivered ids", junk can be removed from a history.
@@ -94,12 +95,32 @@ theorem clientStep_ok {st : ClientState} {now : Nat} {p : Packet}
   obtain ⟨hl, _, _, _, _, ha, hp⟩ := h
   exact ⟨hl, ha, hp⟩
 
-/-- forged, stale, wrong-type, foreign-session (client side) packets -/
+/-! ### what the timestamp check means, for every 64-bit timestamp word -/
+
+/-- sane clock: `now.Unix() + MaxEpochDiff` is an `int64` -/
+def ClockOk (now : Nat) : Prop := SSV.SaltPool.unixSec now + tsParams.maxEpochDiff < 2 ^ 63
+
+instance (now : Nat) : Decidable (ClockOk now) := by unfold ClockOk; infer_instance
+
+/-- the timestamp word, read as `int64`, is within `MaxEpochDiff` seconds of the clock -/
+def tsNear (ts : BitVec 64) (now : Nat) : Prop :=
+  ts.toInt - (SSV.SaltPool.unixSec now : Int) ≤ (SSV.Gen.C04.MaxEpochDiff : Nat) ∧
+  (SSV.SaltPool.unixSec now : Int) - ts.toInt ≤ (SSV.Gen.C04.MaxEpochDiff : Nat)
+
+instance (ts : BitVec 64) (now : Nat) : Decidable (tsNear ts now) := by unfold tsNear; infer_instance
+
+/-- `ValidateUnixEpochTimestamp` as written (wrapping `int64` subtraction, two signed comparisons) accepts a
+64-bit word iff it is within `MaxEpochDiff` s of the clock — for EVERY word, on a sane clock. -/
+theorem tsValid_iff_near (ts : BitVec 64) {now : Nat} (h : ClockOk now) : tsValid ts now = true ↔ tsNear ts now :=
+  SSV.SaltPool.tsValid_iff tsParams ts now h
+
+/-- forged, stale (more than `MaxEpochDiff` s from the clock, any 64-bit value), wrong-type, foreign-session
+(client side) packets -/
 def serverJunk (now : Nat) (p : Packet) : Bool :=
-  !p.authentic || p.typ != headerTypeClientPacket || !tsValid p.ts now
+  !p.authentic || p.typ != headerTypeClientPacket || !decide (tsNear p.ts now)
 
 def clientJunk (csid : Nat) (now : Nat) (p : Packet) : Bool :=
-  !p.authentic || p.typ != headerTypeServerPacket || !tsValid p.ts now || p.csid != csid
+  !p.authentic || p.typ != headerTypeServerPacket || !decide (tsNear p.ts now) || p.csid != csid
 
 theorem parseClientHeader_none {now : Nat} {p : Packet} (h : parseClientHeader now p = none) :
     p.hdr = true ∧ p.typ = headerTypeClientPacket ∧ tsValid p.ts now = true ∧ p.rest = true := by
@@ -113,23 +134,32 @@ theorem parseServerHeader_none {now csid : Nat} {p : Packet} (h : parseServerHea
   cases h1 : p.hdr <;> cases h2 : (p.typ != headerTypeServerPacket) <;> cases h3 : tsValid p.ts now <;>
     cases h5 : (p.csid != csid) <;> cases h4 : p.rest <;> simp_all
 
-theorem serverJunk_rejected {st : ServerState} {now : Nat} {p : Packet} (h : serverJunk now p = true) :
+theorem parseClientHeader_none_iff {now : Nat} {p : Packet} :
+    parseClientHeader now p = none ↔
+      (p.hdr = true ∧ p.typ = headerTypeClientPacket ∧ tsValid p.ts now = true ∧ p.rest = true) := by
+  unfold parseClientHeader
+  cases h1 : p.hdr <;> cases h2 : (p.typ != headerTypeClientPacket) <;> cases h3 : tsValid p.ts now <;>
+    cases h4 : p.rest <;> simp_all
+
+theorem serverJunk_rejected {st : ServerState} {now : Nat} {p : Packet} (hc : ClockOk now) (h : serverJunk now p = true) :
     (serverStep st now p).2 ≠ .ok := by
   intro hok
   obtain ⟨_, ha, hp⟩ := serverStep_ok hok
   obtain ⟨_, ht, hts, _⟩ := parseClientHeader_none hp
-  simp [serverJunk, ha, ht, hts] at h
+  have hn := (tsValid_iff_near p.ts hc).mp hts
+  simp [serverJunk, ha, ht, hn] at h
 
-theorem clientJunk_rejected {st : ClientState} {now : Nat} {p : Packet} (h : clientJunk st.csid now p = true) :
+theorem clientJunk_rejected {st : ClientState} {now : Nat} {p : Packet} (hck : ClockOk now) (h : clientJunk st.csid now p = true) :
     (clientStep st now p).2 ≠ .ok := by
   intro hok
   obtain ⟨_, ha, hp⟩ := clientStep_ok hok
   obtain ⟨_, ht, hts, hc, _⟩ := parseServerHeader_none hp
-  simp [clientJunk, ha, ht, hts, hc] at h
+  have hn := (tsValid_iff_near p.ts hck).mp hts
+  simp [clientJunk, ha, ht, hn, hc] at h
 
 /-! ### removing junk from a history does not change the other verdicts -/
 
-theorem server_junk_filter (st : ServerState) (evs : List Event) :
+theorem server_junk_filter (st : ServerState) (evs : List Event) (hck : ∀ e ∈ evs, ClockOk e.1) :
     ((evs.zip (serverRun st evs)).filter (fun e => !serverJunk e.1.1 e.1.2)).map (·.2) =
       serverRun st (evs.filter (fun e => !serverJunk e.1 e.2)) := by
   induction evs generalizing st with
@@ -138,11 +168,11 @@ theorem server_junk_filter (st : ServerState) (evs : List Event) :
     obtain ⟨now, p⟩ := e
     simp only [serverRun, List.zip_cons_cons, List.filter_cons]
     by_cases hj : serverJunk now p = true
-    · have hst := serverStep_noop st now p (serverJunk_rejected hj)
+    · have hst := serverStep_noop st now p (serverJunk_rejected (hck (now, p) List.mem_cons_self) hj)
       simp only [hj, Bool.not_true, Bool.false_eq_true, if_false]
-      rw [hst]; exact ih st
+      rw [hst]; exact ih st (fun e he => hck e (List.mem_cons_of_mem _ he))
     · simp only [hj, Bool.not_false, if_true, List.map_cons, serverRun]
-      rw [ih]
+      rw [ih _ (fun e he => hck e (List.mem_cons_of_mem _ he))]
 
 theorem clientCommit_csid (st : ClientState) (now : Nat) (p : Packet) :
     (clientCommit st now p).csid = st.csid ∧ (clientCommit st now p).filterSize = st.filterSize := by
@@ -156,7 +186,7 @@ theorem clientStep_csid (st : ClientState) (now : Nat) (p : Packet) : (clientSte
   · exact (clientCommit_csid st now p).1
   · rfl
 
-theorem client_junk_filter (st : ClientState) (evs : List Event) :
+theorem client_junk_filter (st : ClientState) (evs : List Event) (hck : ∀ e ∈ evs, ClockOk e.1) :
     ((evs.zip (clientRun st evs)).filter (fun e => !clientJunk st.csid e.1.1 e.1.2)).map (·.2) =
       clientRun st (evs.filter (fun e => !clientJunk st.csid e.1 e.2)) := by
   induction evs generalizing st with
@@ -165,11 +195,11 @@ theorem client_junk_filter (st : ClientState) (evs : List Event) :
     obtain ⟨now, p⟩ := e
     simp only [clientRun, List.zip_cons_cons, List.filter_cons]
     by_cases hj : clientJunk st.csid now p = true
-    · have hst := clientStep_noop st now p (clientJunk_rejected hj)
+    · have hst := clientStep_noop st now p (clientJunk_rejected (hck (now, p) List.mem_cons_self) hj)
       simp only [hj, Bool.not_true, Bool.false_eq_true, if_false]
-      rw [hst]; exact ih st
+      rw [hst]; exact ih st (fun e he => hck e (List.mem_cons_of_mem _ he))
     · simp only [hj, Bool.not_false, if_true, List.map_cons, clientRun]
-      have := ih (clientStep st now p).1
+      have := ih (clientStep st now p).1 (fun e he => hck e (List.mem_cons_of_mem _ he))
       rw [clientStep_csid] at this
       rw [this]
 
